@@ -295,6 +295,44 @@ def register(op):
         fresh()
         return ["ok", got, want] if want is not None else ["refused"]
 
+    @op("c03_caller_lists")
+    def _(a):
+        """the lists handed to the constructor stay the caller's: after the caller edits them in place the complex (and a strand
+        built from the same sequence list) still shows what it was built from.  a = [seq, struct, edits, as_strand]"""
+        seq, struct, edits, as_strand = a
+        fresh()
+        sq, st = doms(seq), list(struct)
+        want_sq, want_st = names(sq), list(st)
+        c = bc.StrandS(sq, name="S") if as_strand else bc.ComplexS(sq, st, name="V")
+        def observe():
+            o = [names(c.sequence), None if as_strand else list(c.structure), [names(x) if not isinstance(x, str) else x for x in c.canonical_form]
+                 if as_strand else ckey(c), c.size if not as_strand else len(names(c.sequence))]
+            if not as_strand:
+                o += [c.kernel_string, [names(r) for r in c.strand_table], [list(r) for r in c.pair_table]]
+            return o
+        first = observe()
+        problems = []
+        if first[0] != want_sq or (not as_strand and first[1] != want_st):
+            problems.append(["construction", first[:2], [want_sq, want_st]])
+        for n, (target, action) in enumerate(edits):
+            b = sq if target == 0 else st
+            try:
+                if action == "pop": b.pop()
+                elif action == "pop0": del b[0]
+                elif action == "clear": b.clear()
+                elif action == "reverse": b.reverse()
+                elif action == "append": b.append(b[0])
+                elif action == "swap": b[0], b[-1] = b[-1], b[0]
+            except Exception:
+                pass
+            now = observe()
+            if now != first:
+                problems.append([f"step {n}: {'sequence' if target == 0 else 'structure'} list {action}", now, first])
+                break
+        del c
+        fresh()
+        return problems
+
     @op("c03_fresh_compare")
     def _(a):
         """the direct statement of C03 on the implementation: after every step, every view of the object equals the
